@@ -820,84 +820,8 @@ func c04Conj(r *core.Run) {
 		}
 		for _, c := range cmps {
 			n++
-			type st struct{ b, prev *ssa.BasicBlock }
-			start := st{c.v.(ssa.Instruction).Block(), nil}
-			seen := map[st]bool{start: true}
-			work := []st{start}
-			bad := ""
-			var badPos token.Pos
-			valueAt := func(v ssa.Value, s st) ssa.Value {
-				for d := 0; d < 4; d++ {
-					ph, ok := v.(*ssa.Phi)
-					if !ok || ph.Block() != s.b || s.prev == nil {
-						return v
-					}
-					for i, pb := range s.b.Preds {
-						if pb == s.prev {
-							v = ph.Edges[i]
-						}
-					}
-				}
-				return v
-			}
-			for len(work) > 0 && bad == "" {
-				s := work[len(work)-1]
-				work = work[:len(work)-1]
-				last := s.b.Instrs[len(s.b.Instrs)-1]
-				switch x := last.(type) {
-				case *ssa.Return:
-					v := valueAt(x.Results[0], s)
-					base, neg := core.StripNot(v)
-					switch {
-					case base == c.v:
-						// the comparison itself: "different" ⇒ false (or its negation ⇒ would be true)
-						if c.equalOn == neg {
-							bad, badPos = "the negated comparison is returned", x.Pos()
-						}
-					default:
-						if k, isC := base.(*ssa.Const); isC && k.Value != nil {
-							if (k.Value.String() == "true") != neg {
-								bad, badPos = "true is returned", x.Pos()
-							}
-						} else {
-							bad, badPos = "the result is left to "+core.Canon(base), x.Pos()
-						}
-					}
-				case *ssa.If:
-					cond := valueAt(x.Cond, s)
-					base, neg := core.StripNot(cond)
-					for i, sb := range s.b.Succs {
-						if base == c.v {
-							// c "different": value = !equalOn; the condition = value xor neg
-							val := !c.equalOn != neg
-							if (i == 0) != val {
-								continue
-							}
-						}
-						if k, isC := base.(*ssa.Const); isC && k.Value != nil {
-							val := (k.Value.String() == "true") != neg
-							if (i == 0) != val {
-								continue
-							}
-						}
-						ns := st{sb, s.b}
-						if !seen[ns] {
-							seen[ns] = true
-							work = append(work, ns)
-						}
-					}
-				default:
-					for _, sb := range s.b.Succs {
-						ns := st{sb, s.b}
-						if !seen[ns] {
-							seen[ns] = true
-							work = append(work, ns)
-						}
-					}
-				}
-			}
+			bad := conjWitness(fn, c.v, c.equalOn)
 			r.Check(bad == "", "C04.CONJ", core.FuncName(fn)+"#"+core.Canon(c.v), c.v.Pos(), "once this attribute differs the comparator cannot answer 'equivalent'", "with this attribute different the comparator can still answer 'equivalent' ("+bad+"): attribute equalities are combined by 'or' / a later test overrides an earlier difference, so two instructions that differ in this attribute are paired and the change is reported as preserved")
-			_ = badPos
 		}
 	}
 	r.Floor("C04.CONJ", "two-sided attribute comparisons in the comparators", n, 10)
@@ -1038,4 +962,87 @@ func c04ExchangePair(r *core.Run) {
 		})
 	}
 	r.Floor("C04.EXCHANGE", "slots of the recorded branch exchange", n, 2)
+}
+
+// conjWitness: starting in the block of cv with cv taken as "different" (its value is !equalOn), can a return of fn
+// still yield true? Returns the reason ("" if not).
+func conjWitness(fn *ssa.Function, cv ssa.Value, equalOn bool) string {
+	type st struct{ b, prev *ssa.BasicBlock }
+	start := st{cv.(ssa.Instruction).Block(), nil}
+	seen := map[st]bool{start: true}
+	work := []st{start}
+	bad := ""
+	var badPos token.Pos
+	valueAt := func(v ssa.Value, s st) ssa.Value {
+		for d := 0; d < 4; d++ {
+			ph, ok := v.(*ssa.Phi)
+			if !ok || ph.Block() != s.b || s.prev == nil {
+				return v
+			}
+			for i, pb := range s.b.Preds {
+				if pb == s.prev {
+					v = ph.Edges[i]
+				}
+			}
+		}
+		return v
+	}
+	for len(work) > 0 && bad == "" {
+		s := work[len(work)-1]
+		work = work[:len(work)-1]
+		last := s.b.Instrs[len(s.b.Instrs)-1]
+		switch x := last.(type) {
+		case *ssa.Return:
+			v := valueAt(x.Results[0], s)
+			base, neg := core.StripNot(v)
+			switch {
+			case base == cv:
+				// the comparison itself: "different" ⇒ false (or its negation ⇒ would be true)
+				if equalOn == neg {
+					bad, badPos = "the negated comparison is returned", x.Pos()
+				}
+			default:
+				if k, isC := base.(*ssa.Const); isC && k.Value != nil {
+					if (k.Value.String() == "true") != neg {
+						bad, badPos = "true is returned", x.Pos()
+					}
+				} else {
+					bad, badPos = "the result is left to "+core.Canon(base), x.Pos()
+				}
+			}
+		case *ssa.If:
+			cond := valueAt(x.Cond, s)
+			base, neg := core.StripNot(cond)
+			for i, sb := range s.b.Succs {
+				if base == cv {
+					// c "different": value = !equalOn; the condition = value xor neg
+					val := !equalOn != neg
+					if (i == 0) != val {
+						continue
+					}
+				}
+				if k, isC := base.(*ssa.Const); isC && k.Value != nil {
+					val := (k.Value.String() == "true") != neg
+					if (i == 0) != val {
+						continue
+					}
+				}
+				ns := st{sb, s.b}
+				if !seen[ns] {
+					seen[ns] = true
+					work = append(work, ns)
+				}
+			}
+		default:
+			for _, sb := range s.b.Succs {
+				ns := st{sb, s.b}
+				if !seen[ns] {
+					seen[ns] = true
+					work = append(work, ns)
+				}
+			}
+		}
+	}
+	_ = badPos
+	return bad
 }
